@@ -95,6 +95,7 @@ type Path struct {
 	noDivAxiom bool
 	merges     int
 	decLabels  map[string]int
+	race       *raceState
 }
 
 type ufApp struct {
